@@ -267,7 +267,7 @@ def impl_run(hyp, case):
                     tm3 = transaction.TransactionManager()
                     c3 = db.open(tm3)
                     c3.cacheMinimize()
-                    out.append(c09.observe(c3.root()["cat"], ids))
+                    out.append(c09.observe(c3.root()["cat"], ids) + " @@ " + objobs(c3.root()["cat"], ids))
                     tm3.abort()
                     c3.close()
                 else:
@@ -283,10 +283,41 @@ def impl_run(hyp, case):
     return out
 
 
+def objobs(cat, ids):
+    """the object-level model's vocabulary, read through the public API: reverse map, not-indexed set, the
+    counter where a method reports it, and every forward key with its posting"""
+    import re
+    from lib.core import idset
+    out = []
+    if "i0" in cat:
+        ix = cat["i0"]
+        rev = ["%d:%s" % (d, ix.document_repr(d)) for d in ids if ix.document_repr(d) is not None]
+        fwd = ["%d:%s" % (v, idset(ix.applyEq(v))) for v in sorted(ix.unique_values())]
+        out.append("i0 rev=[%s] ni=%s len=%d fwd=[%s]" % (" ".join(rev), idset(ix.not_indexed()),
+                                                         ix.indexed_count(), " ".join(fwd)))
+    for name, names in (("i1", c09.KWS), ("i2", c09.FACETS)):
+        if name not in cat:
+            continue
+        ix = cat[name]
+        rev = []
+        for d in ids:
+            r = ix.document_repr(d)
+            if r is not None:
+                rev.append("%d:%s" % (d, ",".join(str(k) for k in sorted(names.index(w) for w in
+                                                                           re.findall(r"'([^']*)'", r)))))
+        fwd = ["%d:%s" % (names.index(w), idset(ix.applyEq(w))) for w in sorted(ix.unique_values(), key=names.index)]
+        out.append("%s rev=[%s] ni=%s fwd=[%s] inv=1" % (name, " ".join(rev), idset(ix.not_indexed()), " ".join(fwd)))
+    return " ;; ".join(out)
+
+
 def post_model(hyp, case, mouts, iouts=None):
     """the `check` line lists, for each combination of commit outcomes, the operations that must be visible;
     pick the combination the implementation produced (both outcomes are admissible) and turn it into the
-    observation of an in-memory catalog that ran exactly those operations serially"""
+    observation of an in-memory catalog that ran exactly those operations serially (= the specification's
+    answer).  The part after ` @@ ` is the object-level model: the heaps its own merge produced (both
+    committed) or the first committer's heaps (second commit refused), compared with the stored catalog in
+    the model's vocabulary; the second `commit` line carries the model's merge verdict - a model conflict
+    where the real commit succeeded is a wrong footprint (drift), the converse is admissible"""
     ops = {c[1]: c for c in case["cmds"] if c[0] in ("base", "a", "b")}
     ids = list(range(case["cfg"][0][2]))
     cutoff = case["cfg"][1][2]
@@ -295,9 +326,12 @@ def post_model(hyp, case, mouts, iouts=None):
         if c[0] == "commit":
             outcome[c[1]] = o
     key = "%s,%s:" % (outcome.get("a", "?"), outcome.get("b", "?"))
+    order = [c[1] for c in case["cmds"] if c[0] == "commit"]
     res = []
     for m in mouts:
         if m.startswith("eff "):
+            parts = m.split(" @@ ")
+            m = parts[0]
             alts = [x.strip() for x in m[4:].split(";")]
             pick = [x for x in alts if x.startswith(key)]
             if not pick:
@@ -308,7 +342,12 @@ def post_model(hyp, case, mouts, iouts=None):
             try:
                 for k in ks:
                     c09.apply_op(cat, ["op"] + list(ops[k][1:]))
-                res.append(c09.observe(cat, ids))
+                spec = c09.observe(cat, ids) + " @@ " + objobs(cat, ids)
+                model = spec
+                if len(parts) == 3 and len(order) == 2 and outcome.get(order[0]) == "ok":
+                    # the object-level model: merged heaps / the first committer's heaps
+                    model = c09.observe(cat, ids) + " @@ " + (parts[1] if outcome.get(order[1]) == "ok" else parts[2])
+                res.append(spec if model == spec else model + " ## " + spec)
             except Exception as e:
                 res.append(exc_name(e))
         else:
@@ -324,6 +363,8 @@ def keep_cmd(c):
 def same(a, b):
     if b == "any":
         return a in ("ok", "conflict")
+    if b.startswith("conflict "):       # the object-level model refuses the merge (and names the objects)
+        return a == "conflict"
     return a == b
 
 
